@@ -62,7 +62,8 @@ def OwnName (enc : Bytes → Bytes) : Op → Acc → Bytes → Prop
   | .getObject b k, acc, n => acc = .read ∧ (n = metadataName enc b k none ∨ n = internalInfoName enc b k)
   | .headObject b k, acc, n => acc = .read ∧ n = metadataName enc b k none
   | .copyObject _ sb sk b k, acc, n =>
-    (acc = .read ∧ n = metadataName enc sb sk none) ∨ n = metadataName enc b k none
+    (acc = .read ∧ (n = metadataName enc sb sk none ∨ n = internalInfoName enc sb sk)) ∨
+      n = metadataName enc b k none ∨ n = internalInfoName enc b k
   | .putObject b k _ _ _ _ c, _, n =>
     n = metadataName enc b k none ∨ n = internalInfoName enc b k ∨ n = tmpName c
   | .createMultipartUpload b k _ u, _, n => n = uploadInfoName u ∨ n = metadataName enc b k (some u)
